@@ -7,6 +7,7 @@ import (
 	"go/token"
 	"go/types"
 	"strings"
+	"time"
 
 	"golang.org/x/tools/go/ssa"
 )
@@ -106,8 +107,87 @@ func rtp(msg string) rtPanic {
 	return rtPanic{msg, site}
 }
 
+// pointer to an element of a concrete table selected by a symbolic byte (read-only)
+type symElemPtr struct {
+	elems []value
+	idx   *term
+}
+
+// value of elems[idx] for a symbolic 8-bit idx over concrete booleans / small integers
+func selectSym(elems []value, idx *term) value {
+	n := len(elems)
+	if n > 256 {
+		n = 256
+	}
+	if n == 0 {
+		panic(rtp("index out of range"))
+	}
+	inRange := tTrue
+	if n < 256 {
+		inRange = mkCmp("ult", idx, bvConst(int64(n), 8))
+		if !branch(boolVal(inRange)) {
+			panic(rtp("index out of range"))
+		}
+	}
+	switch elems[0].(type) {
+	case bool:
+		var ds []*term
+		for i := 0; i < n; {
+			if b, ok := elems[i].(bool); !ok {
+				panic(unsupported{"symbolic index into a table with symbolic entries"})
+			} else if !b {
+				i++
+				continue
+			}
+			j := i
+			for j+1 < n {
+				if b, ok := elems[j+1].(bool); ok && b {
+					j++
+				} else {
+					break
+				}
+			}
+			if i == j {
+				ds = append(ds, mkEq(idx, bvConst(int64(i), 8)))
+			} else {
+				ds = append(ds, rngTerm(idx, int64(i), int64(j)))
+			}
+			i = j + 1
+		}
+		return boolVal(mkOr(ds...))
+	case int64:
+		// byte-valued tables (e.g. a lower-casing table): nested ite over runs of equal values
+		var t *term
+		for i := n - 1; i >= 0; {
+			v, ok := elems[i].(int64)
+			if !ok || v < 0 || v > 255 {
+				panic(unsupported{"symbolic index into a table of non-byte integers"})
+			}
+			j := i
+			for j-1 >= 0 {
+				if w, ok := elems[j-1].(int64); ok && w == v {
+					j--
+				} else {
+					break
+				}
+			}
+			c := bvConst(v, 8)
+			if t == nil {
+				t = c
+			} else {
+				t = mkIte(rngTerm(idx, int64(j), int64(i)), c, t)
+			}
+			i = j - 1
+		}
+		return t
+	}
+	panic(unsupported{"symbolic index into a table of " + describe(elems[0])})
+}
+
 func deref(p value) value {
 	switch x := p.(type) {
+	case symElemPtr:
+		return selectSym(x.elems, x.idx)
 	case *value:
 		if x == nil {
 			panic(rtp("nil pointer dereference"))
@@ -438,6 +518,8 @@ func callBody(fn *ssa.Function, args []value, free []value) value {
 
 type unwindFail struct{ msg string }
 
+var jobDeadline time.Time
+
 func run(fr *frame) value {
 	var prev *ssa.BasicBlock
 	b := fr.fn.Blocks[0]
@@ -447,6 +529,9 @@ func run(fr *frame) value {
 			rs.steps++
 			if rs.steps > cfg.MaxSteps {
 				panic(unwindFail{"step budget exceeded"})
+			}
+			if rs.steps&0xfffff == 0 && !jobDeadline.IsZero() && time.Now().After(jobDeadline) {
+				panic(unwindFail{"job time budget exhausted"})
 			}
 			rs.curInstr = in
 			switch x := in.(type) {
@@ -684,6 +769,9 @@ func doIndexAddr(base, idx value) value {
 	default:
 		panic(unsupported{"indexaddr " + describe(base)})
 	}
+	if t, ok := idx.(*term); ok && t.w == 8 {
+		return symElemPtr{elems, t}
+	}
 	return lift1(idx, func(i value) value {
 		k, ok := i.(int64)
 		if !ok {
@@ -699,6 +787,14 @@ func doIndexAddr(base, idx value) value {
 func doIndex(base, idx value) value {
 	if u, ok := base.(*union); ok {
 		return liftU(u, func(s value) value { return doIndex(s, idx) })
+	}
+	if t, ok := idx.(*term); ok && t.w == 8 {
+		switch c := base.(type) {
+		case array:
+			return selectSym(c, t)
+		case string:
+			return selectSym(toBytes(c), t)
+		}
 	}
 	return lift2(base, idx, func(s, i value) value {
 		k, ok := i.(int64)
@@ -828,6 +924,7 @@ func doMapUpdate(mv, k, v value) {
 	if u, isU := k.(*union); isU {
 		k = splitUnion(u)
 	}
+	k = copyVal(k)
 	noteMapWrite(m)
 	for i, kk := range m.keys {
 		if keyEq(kk, k) {
@@ -841,8 +938,40 @@ func doMapUpdate(mv, k, v value) {
 
 // key equality for map updates; symbolic strings are resolved by forking
 func keyEq(a, b value) bool {
+	if x, ok := a.(array); ok {
+		y, ok2 := b.(array)
+		if !ok2 || len(x) != len(y) {
+			return false
+		}
+		for i := range x {
+			if !keyEq(x[i], y[i]) {
+				return false
+			}
+		}
+		return true
+	}
+	if x, ok := a.(structure); ok {
+		y, ok2 := b.(structure)
+		if !ok2 || len(x) != len(y) {
+			return false
+		}
+		for i := range x {
+			if !keyEq(x[i], y[i]) {
+				return false
+			}
+		}
+		return true
+	}
+	_, ta := a.(*tab)
+	_, tb := b.(*tab)
+	if ta || tb {
+		return branch(binop(token.EQL, a, b, nil))
+	}
 	if isSym(a) || isSym(b) {
-		return branch(strEq(a, b))
+		if isStringish(a) || isStringish(b) {
+			return branch(strEq(a, b))
+		}
+		return branch(binop(token.EQL, a, b, nil))
 	}
 	return eqConc(a, b)
 }
@@ -866,6 +995,18 @@ func doLookup(x *ssa.Lookup, m, k value) value {
 		}
 		alts = append(alts, alt{none, lookupRes(x, zero(elemT), false)})
 		return mergeAlts(alts)
+	}
+	if _, isArr := k.(array); isArr {
+		// composite key: resolve by (possibly forking) element-wise comparison
+		mv, _ := m.(*mapVal)
+		if mv != nil {
+			for i, kk := range mv.keys {
+				if keyEq(kk, k) {
+					return lookupRes(x, mv.vals[i], true)
+				}
+			}
+		}
+		return lookupRes(x, zero(elemT), false)
 	}
 	return transposeTuple(lift2(m, k, func(m, k value) value {
 		mv, ok := m.(*mapVal)
